@@ -355,7 +355,8 @@ def _ports(it, clocked):
     L = []
     if clocked:
         L += ["    i_clk: input  clock,", "    i_rst: input  reset,"]
-    L += [f"    i_d  : input  {it['pkg']}::word_t,", f"    o_d  : output {it['pkg']}::word_t,"]
+    o = "o_q" if it.get("port_alt") else "o_d"      # port_alt: an interface change the *users* are not told about
+    L += [f"    i_d  : input  {it['pkg']}::word_t,", f"    {o}  : output {it['pkg']}::word_t,"]
     return "\n".join(L)
 
 
@@ -371,12 +372,13 @@ def r_leaf(P, it):
         rhs = f"{pkg}::bump(i_d){ex}"
     else:
         rhs = f"i_d + {pkg}::K{ex}"
+    o = "o_q" if it.get("port_alt") else "o_d"
     if it.get("ifdef"):
-        body += f"    #[ifdef(DEF_A)]\n    assign o_d = {rhs} + 1;\n    #[ifndef(DEF_A)]\n    assign o_d = {rhs};\n"
+        body += f"    #[ifdef(DEF_A)]\n    assign {o} = {rhs} + 1;\n    #[ifndef(DEF_A)]\n    assign {o} = {rhs};\n"
     elif style == "comb":
-        body += f"    always_comb {{\n        o_d = {rhs};\n    }}\n"
+        body += f"    always_comb {{\n        {o} = {rhs};\n    }}\n"
     else:
-        body += f"    assign o_d = {rhs};\n"
+        body += f"    assign {o} = {rhs};\n"
     return f"module {it['name']} (\n{_ports(it, False)}\n) {{\n{body}}}\n"
 
 
@@ -1127,6 +1129,86 @@ class HistoryGen:
         argv = cmd or self._cmd()
         return {"edits": edits, "cmd": argv, "kinds": kinds,
                 "expect_ok": not self.P.has_defect() and not self.P.dangling()}
+
+    LATE_REF_VARIANTS = ("port", "fn", "delete")
+
+    def late_ref_steps(self, variant):
+        """Scripted 4-step scenario "a dependency that appears late": (pre) a successful build; (add) an existing file B starts
+        referencing an existing, unchanged file A, build (A is a cache hit, so its cached dependents list must be refreshed);
+        (break) A alone changes in a way only B's analysis/emit can notice, build or check; (undo).
+        variants: port  = A's output port is renamed, B still connects the old name (clean build: error in B)
+                  fn    = package A drops a function B (a leaf that just switched to A) calls
+                  delete= A's file is deleted while B instantiates it
+        Steps carry "tag" (late_ref_pre/add/break/undo) and "late_ref_target" (A's path).  Returns [] when not applicable."""
+        P, r = self.P, self.rng
+        self.extra_edits = []
+        steps = []
+
+        def step(tag, cmd, ok=True, target=None):
+            st = {"edits": self._sync(), "cmd": cmd, "kinds": [f"late_ref_{tag}:{variant}"], "expect_ok": ok, "tag": f"late_ref_{tag}"}
+            if target:
+                st["late_ref_target"] = target
+            steps.append(st)
+
+        # pre: make the project build, make sure the needed items exist, build
+        for _, it in P.items():
+            it.pop("err_undef", None)
+            it.pop("err_syntax", None)
+        for p in sorted(P.attic):
+            P.vfiles.setdefault(p, []).extend(P.attic.pop(p))
+        if variant in ("port", "delete"):
+            leaves = [n for n in P.names("leaf") if len(P.vfiles[P.file_of(n)]) == 1]
+            if not leaves:
+                add_random(P, r, "leaf")
+                leaves = [n for n in P.names("leaf") if len(P.vfiles[P.file_of(n)]) == 1]
+            a = r.pick(leaves)
+            mids = [n for n in P.names("mid") if all(st_["mod"] != a for st_ in P.find(n)["stages"]) and len(P.find(n)["stages"]) < 4]
+            if not mids:
+                add_random(P, r, "mid")
+                mids = [n for n in P.names("mid") if all(st_["mod"] != a for st_ in P.find(n)["stages"])]
+            if not mids:
+                return []
+            b = r.pick(mids)
+        elif variant == "fn":
+            pk = [n for n in P.names("pkg") if P.find(n).get("fn")]
+            if not pk:
+                return []
+            a = r.pick(pk)
+            lv = [n for n in P.names("leaf") if P.find(n)["pkg"] != a]
+            if not lv:
+                add_random(P, r, "leaf")
+                lv = [n for n in P.names("leaf") if P.find(n)["pkg"] != a]
+            if not lv:
+                return []
+            b = r.pick(lv)
+        else:
+            return []
+        apath = P.file_of(a)
+        step("pre", ["build"])
+        # add: B starts to reference the unchanged A
+        bit = P.find(b)
+        if variant in ("port", "delete"):
+            bit["stages"].append({"mod": a})
+        elif variant == "fn":
+            bit["pkg"] = a
+            bit["style"] = "fn"
+        step("add", ["build"], target=apath)
+        # break: only A changes
+        ait = P.find(a)
+        if variant == "port":
+            ait["port_alt"] = True
+            step("break", r.pick([["build"], ["check"]]), ok=False, target=apath)
+            ait.pop("port_alt")
+        elif variant == "fn":
+            ait["fn"] = False
+            step("break", r.pick([["build"], ["check"]]), ok=False, target=apath)
+            ait["fn"] = True
+        elif variant == "delete":
+            P.attic[apath] = P.vfiles.pop(apath)
+            step("break", r.pick([["build"], ["check"]]), ok=False, target=apath)
+            P.vfiles.setdefault(apath, []).extend(P.attic.pop(apath))
+        step("undo", ["build"])
+        return steps
 
     def repair_step(self, cmd=None):
         """A step that removes all injected errors and restores deleted-but-referenced files."""
